@@ -7,6 +7,12 @@ import os
 HERE = os.path.dirname(os.path.dirname(os.path.abspath(__file__)))
 
 TABLE = {
+    "C01": dict(
+        technique="differential acceptance against gcc: Hypothesis-driven typed program builder (only gcc -pedantic-errors-valid programs count) + grammar-derived translation units (gcc consulted on rejection) + gcc-checked corner catalogue",
+        text="Tier 1: type-correct C99/C11 programs from a typed builder covering all statement kinds, operators, aggregate types, initializers, VLAs, K&R definitions and the documented C11 constructs; each program gcc accepts under -std=c99/-std=c11 -pedantic-errors must parse. Tier 2: translation units derived from Annex A under the typedef-name rule must parse; on rejection gcc decides between generator fault (harness error) and violation. 131 corner snippets are validated by gcc at start. Statistical; constructs outside the two generators (e.g. _Generic) are not covered; nine listed acceptance findings (F9-F18) are replayed separately.",
+        note="Trusted: gcc 12 as validity oracle (first diagnostic only for tier 2), the typed builder never producing double-underscore keywords.",
+        ref="DESIGN.md section 4, C01",
+    ),
     "C02": dict(
         technique="model-based oracle: exhaustive enumeration of small expression trees + Hypothesis-generated trees, rendered in 3 parenthesisation modes x 12 contexts, compared with the grammar-derived expected AST",
         text="Every expression tree with up to 2 (quick) / 3 (thorough) operator nodes over 54 operator kinds is rendered with minimal and full parentheses in 12 contexts and the parsed subtree must equal the tree derived from the C grammar; Hypothesis adds deeper random trees with redundant parentheses and every constant kind. Complete inside the enumerated bound, statistical beyond.",
@@ -36,6 +42,12 @@ TABLE = {
         text="Every 2-operator expression tree, every derivation sequence up to length 2 (quick) / 3 (thorough) in 11 contexts, every small statement tree and switch body, Hypothesis-generated whole translation units, the preprocessed repository corpus, the corner catalogue and accepted token-mutants are round-tripped with reduce_parentheses off and on. Complete inside the enumerated bound, statistical beyond; listed generator findings (F21, F25a, F12*) are excluded by construction or by an AST predicate on the input.",
         note="Trusted: astdump.dump as structural equality; programs the parser rejects carry no claim.",
         ref="DESIGN.md section 4, C07",
+    ),
+    "C08": dict(
+        technique="translation validation by an independent compiler: gcc -S -O0/-O1 output of the original and of the CGenerator text (both configurations) must be byte-identical, for Hypothesis-generated type-correct programs and the gcc-compilable corpus",
+        text="Programs from the typed builder (gcc-valid only) and the preprocessed corpus files gcc compiles are parsed, regenerated and recompiled; the assembly at -O0 and -O1 must be identical after dropping .file/.ident. Nothing of pycparser takes part in the comparison, so faults shared by parser and generator show. Statistical (about 200 programs per quick run, 4 800 per thorough run); differences invisible on LP64 (long vs long long) or in code generation ('static' in array parameters) are out of reach and left to C07.",
+        note="Trusted: gcc 12 determinism; programs gcc rejects are generator misses and unused.",
+        ref="DESIGN.md section 4, C08",
     ),
     "C09": dict(
         technique="reference-tokenizer oracle: Hypothesis-generated token sequences under random layouts and directive lines, exhaustive token pairs, exhaustive short strings for the progress/no-silent-skip part",
